@@ -184,6 +184,18 @@ func runC15(l *core.Ledger) {
 			continue
 		}
 		total += len(acc)
+		// the field has become a typed atomic (atomic.Bool, atomic.Pointer[T], ...): every access goes
+		// through its methods, it needs no lock
+		if tn, _ := r.pkg.Types.Scope().Lookup(row.typ).(*types.TypeName); tn != nil {
+			if st, isS := tn.Type().Underlying().(*types.Struct); isS {
+				if i := sx.FieldIndex(tn.Type(), row.field); i >= 0 {
+					if nt, isN := st.Field(i).Type().(*types.Named); isN && nt.Obj().Pkg() != nil && nt.Obj().Pkg().Path() == "sync/atomic" {
+						l.OK("C15-A1", row.typ+"."+row.field, token.NoPos, "a typed atomic: accessed through its methods only")
+						continue
+					}
+				}
+			}
+		}
 		key := row.typ + "." + row.field
 		switch row.kind {
 		case "guarded":
@@ -303,7 +315,9 @@ func runC15(l *core.Ledger) {
 			c := per[f]
 			l.Check(c[0] == c[1], "C15-A1", fnKey(f), f.Pos(), "sync/atomic only", fnKey(f)+" touches the flag word non-atomically")
 		}
-		if len(fns) < 2 {
+		if _, has := r.pkg.Types.Scope().Lookup("atomicFlag").(*types.TypeName); !has {
+			l.OK("C15-A1", "atomicFlag/methods", token.NoPos, "the flag type is gone (flags are typed atomics, classified per field)")
+		} else if len(fns) < 2 {
 			l.Unknown("C15-A1", "atomicFlag/methods", token.NoPos, "fewer than two functions access the flag word of atomicFlag: type not found or reshaped")
 		}
 	}
